@@ -133,6 +133,8 @@ def scalar_add_hook(bc, w, ctx, cfg):
 
 def prove_with(ctx, paths, bc, goalf, pre, timeout):
     """discharge pending callee preconditions (each from the assumptions that precede it), then the goal"""
+    vq = smt.prove(lambda tr: z3.BoolVal(False), assumptions=list(pre) + bc.assume, timeout=30)
+    if vq.status == 'unsat': return ('unknown', 'vacuous: the contract assumptions collected on this run are unsatisfiable')
     for lab, na, f in bc.pending:
         r = smt.prove(f, assumptions=list(pre) + bc.assume[:na], timeout=min(timeout, 30))
         if r.status != 'unsat': return ('pre', lab, r)
